@@ -1250,6 +1250,30 @@ func (ex *Exec) lookupLocalAt(fr *frame, name string, at *ssa.BasicBlock, st *St
 		}
 	}
 	if best != nil {
+		if _, isConst := best.X.(*ssa.Const); isConst && at != nil {
+			// the declaration of `x := expr` carries the zero value; prefer a later binding of the same
+			// variable whose value is already available at this point (defined in a dominating block)
+			for _, b := range fn.Blocks {
+				for _, in := range b.Instrs {
+					d, ok := in.(*ssa.DebugRef)
+					if !ok || d.Object() != best.Object() || d.IsAddr {
+						continue
+					}
+					xi, ok := d.X.(ssa.Instruction)
+					if !ok || xi.Block() == nil {
+						continue
+					}
+					if _, have := fr.env[d.X]; !have {
+						continue
+					}
+					if xi.Block() == at || xi.Block().Dominates(at) {
+						if _, bc := best.X.(*ssa.Const); bc || best.X.(ssa.Instruction).Block().Dominates(xi.Block()) {
+							best = d
+						}
+					}
+				}
+			}
+		}
 		v := ex.operand(fr, best.X)
 		if best.IsAddr {
 			pt := derefType(best.X.Type())
